@@ -187,6 +187,12 @@ impl Drop for Node {
 impl Drop for NodeData {
     fn drop(&mut self) {
         self.sodium_ctx.dec_node_count();
+        // keep_alive entries are counted by hand (add_keep_alive); release what the gc
+        // deconstructor did not get the chance to (it empties the list when it runs).
+        let keep_alive: Vec<GcNode> = std::mem::take(&mut *self.keep_alive.write());
+        for gc_node in keep_alive {
+            gc_node.dec_ref();
+        }
     }
 }
 
